@@ -32,7 +32,7 @@ type wbNode struct {
 	cancel    context.CancelFunc
 	peer      chan []byte
 	events    chan event
-	listening map[string]bool
+	listeners map[string]netceptor.PacketConner
 	seq       int
 }
 
@@ -44,7 +44,7 @@ func (h *harness) node(id string) *wbNode {
 	}
 	ctx, cancel := context.WithCancel(context.Background())
 	n := netceptor.New(ctx, id)
-	w := &wbNode{id: id, n: n, cancel: cancel, events: make(chan event, 256), listening: map[string]bool{}}
+	w := &wbNode{id: id, n: n, cancel: cancel, events: make(chan event, 256), listeners: map[string]netceptor.PacketConner{}}
 	w.peer, _ = n.VerifAddConn("peer", 1.0, 256)
 	sub := n.GetUnreachableBroker().Subscribe()
 	go func() {
@@ -57,6 +57,11 @@ func (h *harness) node(id string) *wbNode {
 				w.events <- event{Sentinel: true}
 				continue
 			}
+			if strings.HasPrefix(u.Problem, "C12#") {
+				// one of our own packets addressed to this node's reserved service "unreach": delivered
+				w.events <- event{Out: output{P: packet{u.ReceivedFromNode, "", id, "unreach"}}, Data: u.Problem}
+				continue
+			}
 			m := u.UnreachableMessage
 			w.events <- event{Out: output{P: packet{u.ReceivedFromNode, "unreach", id, "unreach"}, Notice: &m}}
 		}
@@ -66,12 +71,12 @@ func (h *harness) node(id string) *wbNode {
 }
 
 func (w *wbNode) listen(svc string) {
-	if w.listening[svc] {
+	if _, ok := w.listeners[svc]; ok {
 		return
 	}
 	pc, err := w.n.ListenPacket(svc)
 	Must(err)
-	w.listening[svc] = true
+	w.listeners[svc] = pc
 	go func() {
 		buf := make([]byte, 4096)
 		for {
@@ -86,6 +91,13 @@ func (w *wbNode) listen(svc string) {
 			w.events <- event{Out: output{P: packet{as[:ci], as[ci+1:], w.id, svc}}, Data: d, Sentinel: d == fenceData}
 		}
 	}()
+}
+
+func (w *wbNode) unlisten(svc string) {
+	if pc, ok := w.listeners[svc]; ok {
+		_ = pc.Close()
+		delete(w.listeners, svc)
+	}
 }
 
 func (w *wbNode) waitSentinel(what string) []event {
@@ -123,12 +135,13 @@ func listenable(svc string) bool {
 	return svc != "" && svc != "ping" && svc != "unreach" && len(svc) <= 8
 }
 
-// handle one packet on a real node whose firewall is fns; returns what left the firewall
-func (w *wbNode) handle(fns []netceptor.FirewallRuleFunc, p packet) ([]output, string) {
+// handle one packet on a real node (whose rules the caller has installed) to the end of
+// handleMessageData; returns every packet that left the node because of it.  listening: a
+// listener exists for p.ToService (destination role); hops: the packet has hops to live.
+func (w *wbNode) handle(p packet, listening, hops bool) ([]output, string) {
 	n := w.n
 	w.seq++
 	tag := fmt.Sprintf("C12#%s#%d", w.id, w.seq)
-	Must(n.AddFirewallRules(fns, true))
 	rt := map[string]string{}
 	if p.ToNode != w.id {
 		rt[p.ToNode] = "peer"
@@ -141,19 +154,33 @@ func (w *wbNode) handle(fns []netceptor.FirewallRuleFunc, p packet) ([]output, s
 	role := "transit"
 	if p.ToNode == w.id {
 		role = "destination"
-		w.listen(p.ToService)
+		if listenable(p.ToService) {
+			if listening {
+				w.listen(p.ToService)
+			} else {
+				w.unlisten(p.ToService)
+			}
+		}
 	} else if p.FromNode == w.id {
 		role = "origin"
+	}
+	data := []byte(tag)
+	if p.ToService == "unreach" {
+		data, _ = json.Marshal(netceptor.UnreachableMessage{Problem: tag})
+	}
+	var hopsToLive byte = 5
+	if !hops {
+		hopsToLive = 0
 	}
 	done := make(chan error, 1)
 	go func() {
 		if role == "origin" {
 			// the public sending API: builds the MessageData with FromNode = this node
-			done <- n.SendMessageWithHopsToLive(p.FromService, p.ToNode, p.ToService, []byte(tag), 5)
+			done <- n.SendMessageWithHopsToLive(p.FromService, p.ToNode, p.ToService, data, hopsToLive)
 			return
 		}
 		md := p.md()
-		md.Data = []byte(tag)
+		md.Data, md.HopsToLive = data, hopsToLive
 		done <- n.VerifHandleMessageData(md)
 	}()
 	var err error
@@ -174,9 +201,12 @@ func (w *wbNode) handle(fns []netceptor.FirewallRuleFunc, p packet) ([]output, s
 		}
 		o := output{P: packet{md.FromNode, md.FromService, md.ToNode, md.ToService}}
 		var u netceptor.UnreachableMessage
-		if json.Unmarshal(md.Data, &u) == nil && u.Problem != "" {
+		switch {
+		case json.Unmarshal(md.Data, &u) == nil && u.Problem != "" && u.Problem != tag:
 			o.Notice = &u
-		} else if string(md.Data) != tag {
+		case u.Problem == tag || string(md.Data) == tag:
+		case len(md.Data) == 0 && md.FromNode == w.id && md.FromService == "ping": // a ping reply
+		default:
 			continue // not ours
 		}
 		outs = append(outs, o)
@@ -184,10 +214,17 @@ func (w *wbNode) handle(fns []netceptor.FirewallRuleFunc, p packet) ([]output, s
 	// (2) local unreachable notifications: fence through the broker (FIFO)
 	_ = n.GetUnreachableBroker().Publish(netceptor.UnreachableNotification{UnreachableMessage: netceptor.UnreachableMessage{Problem: fenceData}})
 	for _, e := range w.waitSentinel("broker") {
+		if e.Data != "" {
+			if e.Data == tag && e.Out.P.FromNode == p.FromNode {
+				outs = append(outs, output{P: p}) // handleUnreachable keeps the source node only
+			}
+			continue
+		}
 		outs = append(outs, e.Out)
 	}
-	// (3) local delivery: fence through the same listener with the firewall open
-	if role == "destination" {
+	// (3) local delivery: fence through the same listener with the firewall open (the caller
+	// re-installs its rules before the next packet)
+	if _, ok := w.listeners[p.ToService]; ok && role == "destination" {
 		Must(n.AddFirewallRules(nil, true))
 		go func() {
 			_ = n.VerifHandleMessageData(&netceptor.MessageData{FromNode: "fence", FromService: "fence", ToNode: w.id, ToService: p.ToService, HopsToLive: 5, Data: []byte(fenceData)})
@@ -220,6 +257,41 @@ func sameOutputs(a, b []output) bool {
 	return true
 }
 
+// oracleNodeFull: handleMessageData to its end, from the property's text: the packet is treated as
+// its first matching rule dictates, and so is every packet the node originates because of it
+// (ping reply, "service unknown" / "message expired" / "blocked by firewall" notices)
+func oracleNodeFull(self string, rs []orule, p packet, listening, hops bool) []output {
+	if oracleVerdict(rs, p) != "accept" {
+		return oracleNode(self, rs, p)
+	}
+	emit := func(problem string) []output {
+		np := packet{self, "unreach", p.FromNode, "unreach"}
+		if oracleVerdict(rs, np) != "accept" {
+			return nil
+		}
+		return []output{{P: np, Notice: &netceptor.UnreachableMessage{FromNode: p.FromNode, ToNode: p.ToNode,
+			FromService: p.FromService, ToService: p.ToService, Problem: problem}}}
+	}
+	if p.ToNode == self {
+		switch {
+		case p.ToService == "ping":
+			return oracleNode(self, rs, packet{self, "ping", p.FromNode, p.FromService})
+		case p.ToService == "unreach" || listening:
+			return []output{{P: p}}
+		case p.FromNode == self:
+			return nil
+		}
+		return emit("service unknown")
+	}
+	if hops {
+		return []output{{P: p}}
+	}
+	if p.FromService == "unreach" {
+		return nil
+	}
+	return emit("message expired")
+}
+
 func (h *harness) nodeCase(gs []grule, fns []netceptor.FirewallRuleFunc, want []orule, p packet) string {
 	if !wireOK(p) {
 		h.im.Hist("node:skipped-not-wire-representable")
@@ -227,47 +299,203 @@ func (h *harness) nodeCase(gs []grule, fns []netceptor.FirewallRuleFunc, want []
 	}
 	r := h.c.Rng
 	self := selfPool[r.Intn(len(selfPool))]
-	if p.ToNode == self && !listenable(p.ToService) {
-		self = "zt"
-		if p.ToNode == self {
-			h.im.Hist("node:skipped-reserved-service")
+	listening, hops := true, true
+	if p.ToNode == self {
+		switch {
+		case p.ToService == "ping" && p.FromNode == self:
+			// a node pinging itself answers itself: not a firewall scenario (see CPing for the real thing)
+			h.im.Hist("node:skipped-local-ping")
 			return ""
+		case p.ToService == "" || (listenable(p.ToService) && r.Chance(30)):
+			listening = false
 		}
+	} else if r.Chance(12) {
+		hops = false
 	}
 	w := h.node(self)
-	outs, info := w.handle(fns, p)
+	Must(w.n.AddFirewallRules(fns, true))
+	outs, info := w.handle(p, listening, hops)
 	role := strings.SplitN(info, "|", 2)[0]
 	h.im.Hist("node-role:" + role)
-	exp := oracleNode(self, want, p)
+	exp := oracleNodeFull(self, want, p, listening, hops)
 	kind := "passes"
+	v := oracleVerdict(want, p)
 	switch {
-	case len(exp) == 0 && oracleVerdict(want, p) == "drop":
+	case v == "drop":
 		kind = "dropped"
-	case len(exp) == 0 && p.FromService == "unreach":
+	case v == "reject" && p.FromService == "unreach":
 		kind = "rejected-no-notice(unreach)"
-	case len(exp) == 0:
+	case v == "reject" && len(exp) == 0:
 		kind = "rejected-notice-blocked-by-own-rules"
-	case exp[0].Notice != nil:
+	case v == "reject":
 		kind = "rejected-with-notice"
+	case p.ToNode == self && p.ToService == "ping":
+		kind = "accepted:ping-reply-originated"
+	case p.ToNode == self && p.ToService == "unreach":
+		kind = "accepted:to-local-unreach-service"
+	case p.ToNode == self && !listening:
+		kind = "accepted:no-listener(service-unknown-notice-originated)"
+	case p.ToNode != self && !hops:
+		kind = "accepted:expired(notice-originated)"
 	}
 	h.im.Hist("node-outcome:" + kind)
-	rec := map[string]interface{}{"rules": rulesJSON(gs), "node": self, "packet": p, "role": role, "observed": fmt.Sprint(outs), "expected": fmt.Sprint(exp)}
-	h.im.Count(fmt.Sprintf("node %v %s %+v", rec["rules"], self, p), len(gs) > 0)
+	rec := map[string]interface{}{"rules": rulesJSON(gs), "node": self, "packet": p, "role": role, "listener": listening, "hops_left": hops,
+		"observed": fmt.Sprint(outs), "expected": fmt.Sprint(exp)}
+	h.im.Count(fmt.Sprintf("node %v %s %+v %v %v", rec["rules"], self, p, listening, hops), len(gs) > 0)
 	if !sameOutputs(outs, exp) {
 		sig := "node-output"
 		if hasTopAlt(gs) {
 			sig = "node-output:regex-top-level-alternation"
 		}
-		h.im.Violate(fmt.Sprintf("node %q (%s) handling %+v lets %v past its firewall; the first matching rule dictates %v", self, role, p, outs, exp), sig, rec)
-	}
-	os := make([]string, len(outs))
-	for i, o := range outs {
-		os[i] = o.coq()
+		h.im.Violate(fmt.Sprintf("node %q (%s, listener=%v, hops left=%v) handling %+v lets %v leave; the first matching rules dictate %v", self, role, listening, hops, p, outs, exp), sig, rec)
 	}
 	if len(h.im.Samples) < 4 {
 		h.im.Sample(map[string]interface{}{"kind": "node", "case": rec})
 	}
-	return fmt.Sprintf("(%s, %s, %s)", coqText(self), p.coq(), CoqList(os))
+	return fmt.Sprintf("(%s, %s, (%s, %s), %s)", coqText(self), p.coq(), CoqBool(listening), CoqBool(hops), outsCoq(outs))
+}
+
+func outsCoq(outs []output) string {
+	os := make([]string, len(outs))
+	for i, o := range outs {
+		os[i] = o.coq()
+	}
+	return CoqList(os)
+}
+
+// ---------- rule installation histories: AddFirewallRules(rules, clearExisting) ----------
+
+type install struct {
+	gs    []grule
+	clear bool
+}
+
+func (h *harness) historyCases() {
+	im, r := h.im, h.c.Rng
+	nHist, nEither := 40, 10
+	if h.c.Thorough() {
+		nHist, nEither = 400, 60
+	}
+	w := h.node("zt")
+	genPkt := func(gs []grule) packet {
+		for {
+			p := genPacket(r, gs)
+			if wireOK(p) && p.FromNode != "zt" && p.ToNode != "zt" {
+				return p
+			}
+		}
+	}
+	for i := 0; i < nHist; i++ {
+		// the first call clears whatever the previous history left (an empty clearing call is a
+		// legitimate way to do that and is how a configuration without rules replaces one with rules)
+		k := 2 + r.Intn(4)
+		hist := make([]install, k)
+		var eff []grule // the rules in force, by the meaning of clearExisting
+		var all [][]grule
+		for j := range hist {
+			n := r.Intn(4)
+			if r.Chance(25) {
+				n = 0
+			}
+			gs := make([]grule, n)
+			for x := range gs {
+				gs[x] = genRule(r, false, 1+r.Intn(2))
+			}
+			hist[j] = install{gs, j == 0 || r.Chance(30)}
+			fns, class, detail := parseReal(rulesData(gs))
+			if class != "ObsOk" {
+				im.Violate("ParseFirewallRules refuses a well-formed rule set: "+detail, "good-rule-refused", rulesJSON(gs))
+				return
+			}
+			if n == 0 && r.Bool() {
+				fns = nil
+			}
+			Must(w.n.AddFirewallRules(fns, hist[j].clear))
+			if hist[j].clear {
+				eff = nil
+			}
+			eff = append(eff, gs...)
+			all = append(all, gs)
+			kind := "append"
+			if hist[j].clear {
+				kind = "clear"
+			}
+			if n == 0 {
+				kind += "-empty"
+			}
+			im.Hist("install:" + kind)
+		}
+		want, _ := oracleRules(eff)
+		var nd []string
+		var hrec []map[string]interface{}
+		hcoq := make([]string, k)
+		for j, in := range hist {
+			hrec = append(hrec, map[string]interface{}{"rules": rulesJSON(in.gs), "clearExisting": in.clear})
+			hcoq[j] = "(" + rulesCoq(in.gs) + ", " + CoqBool(in.clear) + ")"
+		}
+		for x := 0; x < 3; x++ {
+			p := genPkt(eff)
+			outs, _ := w.handle(p, true, true)
+			exp := oracleNode("zt", want, p)
+			rec := map[string]interface{}{"history": hrec, "packet": p, "observed": fmt.Sprint(outs), "expected": fmt.Sprint(exp)}
+			im.Count(fmt.Sprintf("hist %v", rec), true)
+			if !sameOutputs(outs, exp) {
+				im.Violate(fmt.Sprintf("after the installation history %v node zt lets %v leave for %+v; the rules in force dictate %v", hrec, outs, p, exp), "install-history", rec)
+			}
+			nd = append(nd, "("+p.coq()+", "+outsCoq(outs)+")")
+		}
+		h.cf.Add(fmt.Sprintf("CHist %s %s %s %s", tableCoq(all...), CoqList(hcoq), coqText("zt"), CoqList(nd)), fmt.Sprintf("history %v", hrec))
+	}
+	// rules replaced while traffic flows: every packet is judged by one whole rule set
+	for i := 0; i < nEither; i++ {
+		ga, gb := make([]grule, 1+r.Intn(3)), make([]grule, r.Intn(3))
+		for x := range ga {
+			ga[x] = genRule(r, false, 1)
+		}
+		for x := range gb {
+			gb[x] = genRule(r, false, 1)
+		}
+		fa, ca, _ := parseReal(rulesData(ga))
+		fb, cb, _ := parseReal(rulesData(gb))
+		if ca != "ObsOk" || cb != "ObsOk" {
+			im.Violate("ParseFirewallRules refuses a well-formed rule set", "good-rule-refused", nil)
+			return
+		}
+		wa, _ := oracleRules(ga)
+		wb, _ := oracleRules(gb)
+		stop, stopped := make(chan struct{}), make(chan struct{})
+		go func() {
+			defer close(stopped)
+			for {
+				select {
+				case <-stop:
+					return
+				default:
+				}
+				_ = w.n.AddFirewallRules(fa, true)
+				_ = w.n.AddFirewallRules(fb, true)
+			}
+		}()
+		for x := 0; x < 6; x++ {
+			p := genPkt(append(append([]grule{}, ga...), gb...))
+			outs, _ := w.handle(p, true, true)
+			ea, eb := oracleNode("zt", wa, p), oracleNode("zt", wb, p)
+			rec := map[string]interface{}{"rules_a": rulesJSON(ga), "rules_b": rulesJSON(gb), "packet": p, "observed": fmt.Sprint(outs)}
+			im.Count(fmt.Sprintf("either %v", rec), true)
+			if sameOutputs(ea, eb) {
+				im.Hist("replace-under-traffic:sets-agree")
+			} else {
+				im.Hist("replace-under-traffic:sets-differ")
+			}
+			if !sameOutputs(outs, ea) && !sameOutputs(outs, eb) {
+				im.Violate(fmt.Sprintf("while rule sets A and B replace each other node zt lets %v leave for %+v: neither A (%v) nor B (%v)", outs, p, ea, eb), "install-concurrent", rec)
+			}
+			h.cf.Add(fmt.Sprintf("CEither %s %s %s %s %s %s", tableCoq(ga, gb), rulesCoq(ga), rulesCoq(gb), coqText("zt"), p.coq(), outsCoq(outs)),
+				fmt.Sprintf("either %v", rec))
+		}
+		close(stop)
+		<-stopped
+	}
 }
 
 func (h *harness) shutdownNodes() {
